@@ -10,7 +10,7 @@ then before the first '//') followed by whitespace collapsing; `hash` of a str a
 uninterpreted builtins (hash collision-freedom and injectivity of join on newline-free lines are assumptions of C03).
 The statement-classification heuristics (single_statement_detector.py, block_filter.py, typescript_statement_detector)
 are NOT under contract (DESIGN.md 3/C03: assumed as documented)."""
-from pyvc.api import contract, lemma, Int, Bool, Str, SeqOf, TupleOf, Opt, implies, call, ih, opaque, reveal
+from pyvc.api import contract, lemma, Int, Bool, Str, SeqOf, TupleOf, Opt, implies, call, ih, opaque, reveal, use
 
 T = "src/linters/dry/token_hasher.py::"
 PA = "src/linters/dry/python_analyzer.py::PythonDuplicateAnalyzer."
@@ -182,8 +182,147 @@ def rolling_hash_complete(lines, w, j):
         return True
     r = call(T + "rolling_hash", lines, w)
     n = len(lines) - w + 1
+    reveal(windows_from, lines, w, 0)
     if n <= 0:
         return len(r) == 0
-    if not windows_indexing(n, lines, w, j):
-        return True
+    use(windows_indexing, n, lines, w, j)
     return len(r) == n and implies(0 <= j and j < n, r[j] == win(lines, w, j))
+
+
+# ------------------------------------------------------------------ line-tracked tokenisation (Python and TypeScript analyzers)
+def naf(line, in_multi):
+    """_normalize_and_filter_line: (new multi-line-import state, normalised text or None when the line is dropped)."""
+    if len(norm(line)) == 0:
+        return (in_multi, None)
+    if skip_line(norm(line), in_multi):
+        return (skip_state(norm(line), in_multi), None)
+    return (skip_state(norm(line), in_multi), norm(line))
+
+
+@contract(PA + "_normalize_and_filter_line", props=["C03"], types=dict(line=Str, in_multiline_import=Bool),
+          returns=TupleOf(Bool, Opt(Str)))
+class PyNormalizeAndFilterLine:
+    def value(line, in_multiline_import):
+        return naf(line, in_multiline_import)
+
+    def ensures_kept_text_is_the_normalised_line(line, in_multiline_import, result):
+        return implies(result[1] is not None, result[1] == norm(line) and len(result[1]) > 0)
+
+
+@contract(TA + "_normalize_and_filter_line", props=["C03"], types=dict(line=Str, in_multiline_import=Bool),
+          returns=TupleOf(Bool, Opt(Str)))
+class TsNormalizeAndFilterLine:
+    def value(line, in_multiline_import):
+        return naf(line, in_multiline_import)
+
+    def ensures_kept_text_is_the_normalised_line(line, in_multiline_import, result):
+        return implies(result[1] is not None, result[1] == norm(line) and len(result[1]) > 0)
+
+
+def track(pairs: SeqOf(NumLineT), in_multi: Bool) -> SeqOf(NumLineT):
+    """Fold of _normalize_and_filter_line over (line number, raw line) pairs: kept lines keep their number."""
+    if len(pairs) == 0:
+        return []
+    if len(norm(pairs[0][1])) == 0:
+        return track(pairs[1:], in_multi)
+    if skip_line(norm(pairs[0][1]), in_multi):
+        return track(pairs[1:], skip_state(norm(pairs[0][1]), in_multi))
+    return [(pairs[0][0], norm(pairs[0][1]))] + track(pairs[1:], skip_state(norm(pairs[0][1]), in_multi))
+
+
+@contract(PA + "_tokenize_with_line_numbers", props=["C03"],
+          types=dict(content=Str, docstring_lines=SeqOf(Int), lines_with_numbers=SeqOf(NumLineT), in_multiline_import=Bool,
+                     non_docstring_lines=SeqOf(NumLineT), line_num=Int, line=Str, normalized=Opt(Str)),
+          returns=SeqOf(NumLineT))
+class PyTokenizeWithLineNumbers:
+    def value(content, docstring_lines):
+        return track([(line_num, line) for line_num, line in enumerate(content.split("\n"), start=1)
+                      if line_num not in docstring_lines], False)
+
+    def inv0(non_docstring_lines, lines_with_numbers, in_multiline_import, rest):
+        return track(non_docstring_lines, False) == lines_with_numbers + track(rest, in_multiline_import)
+
+
+@contract(TA + "_tokenize_with_line_numbers", props=["C03"],
+          types=dict(content=Str, jsdoc_lines=SeqOf(Int), lines_with_numbers=SeqOf(NumLineT), in_multiline_import=Bool,
+                     non_jsdoc_lines=SeqOf(NumLineT), line_num=Int, line=Str, normalized=Opt(Str)),
+          returns=SeqOf(NumLineT))
+class TsTokenizeWithLineNumbers:
+    def value(content, jsdoc_lines):
+        return track([(line_num, line) for line_num, line in enumerate(content.split("\n"), start=1)
+                      if line_num not in jsdoc_lines], False)
+
+    def inv0(non_jsdoc_lines, lines_with_numbers, in_multiline_import, rest):
+        return track(non_jsdoc_lines, False) == lines_with_numbers + track(rest, in_multiline_import)
+
+
+def tracked(lines: SeqOf(Str), k: Int, skip: SeqOf(Int), in_multi: Bool) -> SeqOf(NumLineT):
+    """Top-level description of line tracking: walk the raw lines numbered k, k+1, ...; drop numbers in `skip`
+    (docstring / JSDoc lines), blank and comment-only lines and import lines; keep (number, normalised text)."""
+    if len(lines) == 0:
+        return []
+    if k in skip or len(norm(lines[0])) == 0:
+        return tracked(lines[1:], k + 1, skip, in_multi)
+    if skip_line(norm(lines[0]), in_multi):
+        return tracked(lines[1:], k + 1, skip, skip_state(norm(lines[0]), in_multi))
+    return [(k, norm(lines[0]))] + tracked(lines[1:], k + 1, skip, skip_state(norm(lines[0]), in_multi))
+
+
+@lemma(props=["C03"], types=dict(lines=SeqOf(Str), k=Int, skip=SeqOf(Int), m=Bool), name="line-tracking-fusion")
+def tracking_fusion(lines, k, skip, m):
+    """Pure: the code's pipeline (enumerate from k, filter by the skip set, fold) is the one-pass description."""
+    if len(lines) == 0:
+        return track([(n, x) for n, x in enumerate(lines, start=k) if n not in skip], m) == tracked(lines, k, skip, m)
+    ih(tracking_fusion, lines[1:], k + 1, skip, m)
+    ih(tracking_fusion, lines[1:], k + 1, skip, skip_state(norm(lines[0]), m))
+    return track([(n, x) for n, x in enumerate(lines, start=k) if n not in skip], m) == tracked(lines, k, skip, m)
+
+
+def tracked_ok(lines, k, skip, m, j):
+    """Element j of tracked(..): its number is an un-skipped line of the input, its text is that line's normalisation
+    (non-empty), and numbers are strictly increasing (order preserved, no line emitted twice)."""
+    r = tracked(lines, k, skip, m)
+    return implies(0 <= j and j < len(r),
+                   k <= r[j][0] and r[j][0] < k + len(lines) and r[j][1] == norm(lines[r[j][0] - k])
+                   and len(r[j][1]) > 0 and r[j][0] not in skip
+                   and implies(j + 1 < len(r), r[j][0] < r[j + 1][0]))
+
+
+@lemma(props=["C03"], types=dict(lines=SeqOf(Str), k=Int, skip=SeqOf(Int), m=Bool, j=Int), name="tracked-lines-are-original")
+def tracked_lines(lines, k, skip, m, j):
+    if len(lines) == 0:
+        return tracked_ok(lines, k, skip, m, j)
+    ih(tracked_lines, lines[1:], k + 1, skip, m, j)
+    ih(tracked_lines, lines[1:], k + 1, skip, m, j - 1)
+    ih(tracked_lines, lines[1:], k + 1, skip, m, 0)
+    ih(tracked_lines, lines[1:], k + 1, skip, skip_state(norm(lines[0]), m), j)
+    ih(tracked_lines, lines[1:], k + 1, skip, skip_state(norm(lines[0]), m), j - 1)
+    ih(tracked_lines, lines[1:], k + 1, skip, skip_state(norm(lines[0]), m), 0)
+    return tracked_ok(lines, k, skip, m, j)
+
+
+def tracking_property(content, skip, r, j):
+    lines = content.split("\n")
+    return implies(0 <= j and j < len(r),
+                   1 <= r[j][0] and r[j][0] <= len(lines) and r[j][1] == norm(lines[r[j][0] - 1])
+                   and len(r[j][1]) > 0 and r[j][0] not in skip
+                   and implies(j + 1 < len(r), r[j][0] < r[j + 1][0]))
+
+
+@lemma(props=["C03"], types=dict(content=Str, skip=SeqOf(Int), j=Int), name="py-line-tracking")
+def py_line_tracking(content, skip, j):
+    """Property: every (ln, t) emitted for a Python file has t = normalize(line ln of the file), ln is not a docstring
+    line, t is not empty, and the emitted line numbers are strictly increasing."""
+    r = call(PA + "_tokenize_with_line_numbers", None, content, skip)
+    use(tracking_fusion, content.split("\n"), 1, skip, False)
+    use(tracked_lines, content.split("\n"), 1, skip, False, j)
+    return tracking_property(content, skip, r, j)
+
+
+@lemma(props=["C03"], types=dict(content=Str, skip=SeqOf(Int), j=Int), name="ts-line-tracking")
+def ts_line_tracking(content, skip, j):
+    """Same property for the TypeScript/JavaScript analyzer (skip = JSDoc comment lines)."""
+    r = call(TA + "_tokenize_with_line_numbers", None, content, skip)
+    use(tracking_fusion, content.split("\n"), 1, skip, False)
+    use(tracked_lines, content.split("\n"), 1, skip, False, j)
+    return tracking_property(content, skip, r, j)
